@@ -339,6 +339,32 @@ func allocEscapes(a *ssa.Alloc) bool {
 					return true
 				}
 			case *ssa.DebugRef:
+			case *ssa.MakeClosure:
+				// captured by a closure that only reads it: no hidden writes
+				fn, _ := r.Fn.(*ssa.Function)
+				if fn == nil {
+					return true
+				}
+				for i, b := range r.Bindings {
+					if b != v || i >= len(fn.FreeVars) {
+						continue
+					}
+					fv := fn.FreeVars[i]
+					if fv.Referrers() == nil {
+						return true
+					}
+					for _, u := range *fv.Referrers() {
+						switch u := u.(type) {
+						case *ssa.UnOp:
+							if u.Op != token.MUL {
+								return true
+							}
+						case *ssa.DebugRef:
+						default:
+							return true
+						}
+					}
+				}
 			case *ssa.Slice:
 				// varargs arrays: sliced and passed to a call; contents are
 				// read by the callee only (append/log) - treat as non-escaping
